@@ -89,6 +89,19 @@ CHECKS = {
         "monitor.",
         "3/C11",
     ),
+    "C06": (
+        "model_checking",
+        "specres+permutations",
+        "bounded-exhaustive enumeration of specifier multisets and ALL their permutations, each resolution compared with a reference "
+        "resolver driven by the table parsed from docs/reference/specifiers.rst",
+        "All sub-multisets (size <= 2 over the quick instance set on 10 classes in 2D/3D, size 3 on a core set; thorough: size <= 3/4) of "
+        "112 built-in specifier instances x every permutation: winner and modifier per property, dependency-respecting evaluation order, "
+        "error kind (ambiguity, cycle, final, missing dependency), order independence, and table conformance of priorities / dependencies "
+        "with the reference, through the veneer API and through compiled Scenic text.",
+        "Trusted: models/specres.py (resolver written from the documented 5-step procedure) and its rst table parser; semantics of "
+        "additive/dynamic/final defaults taken as assumptions listed in the evidence.",
+        "3/C06",
+    ),
 }
 
 NOT_YET = {}
